@@ -248,3 +248,38 @@ def c15_arriba_acceptor(plus: bool, gs: int, ge: int, a0: int, b0: int, a1: int,
     post: _ >= 0
     """
     return _check_acceptor(2, 1 if plus else -1, gs, ge, [(a0, b0), (a1, b1)], right1, q)
+
+
+# --- evidence thresholds (Arriba): "records failing the evidence thresholds ... are skipped"
+_CONF = ['low', 'medium', 'high']
+
+
+def _arriba_valid(s1, s2, ci, m1, m2, mi):
+    from moPepGen.parser.ArribaParser import ArribaConfidence
+    r = ArribaRecord.__new__(ArribaRecord)
+    r.split_reads1, r.split_reads2 = s1, s2
+    r.confidence = ArribaConfidence(_CONF[ci])
+    got = r.is_valid(m1, m2, _CONF[mi])
+    want = s1 >= m1 and s2 >= m2 and ci >= mi
+    if got and not want:
+        return -1                  # a record failing a threshold is accepted
+    if want and not got:
+        return -2                  # a record meeting every threshold is rejected
+    return OK
+
+
+@cond('C15', bounds='Arriba evidence thresholds: split reads of both sides and both minimum values UNBOUNDED symbolic '
+      'integers, confidence and minimum confidence each in {low, medium, high}',
+      encodes=['moPepGen.parser.ArribaParser.ArribaRecord.is_valid', 'moPepGen.parser.ArribaParser.ArribaConfidence'],
+      codes={-1: 'a record failing an evidence threshold is accepted',
+             -2: 'a record meeting every evidence threshold is rejected'}, timeout=300)
+def c15_arriba_thresholds(s1: int, s2: int, ci: int, m1: int, m2: int, mi: int) -> int:
+    """
+    pre: 0 <= ci <= 2 and 0 <= mi <= 2
+    post: _ >= 0
+    """
+    for a in range(3):
+        for b in range(3):
+            if ci == a and mi == b:
+                return _arriba_valid(s1, s2, a, m1, m2, b)
+    return SKIP
